@@ -10,10 +10,14 @@ import Driver.TconnectD
 import Driver.XpollD
 import Driver.BtlsD
 import Driver.TpD
+import Driver.CtxStoreD
+import Driver.TlsPolicyD
 
 def main (args : List String) : IO UInt32 := do
   match args with
   | ["attrmap"] => Driver.AttrMapD.main; return 0
+  | ["tlspolicy"] => Driver.TlsPolicyD.main; return 0
+  | ["ctxstore"] => Driver.CtxStoreD.main; return 0
   | ["tp"] => Driver.TpD.main; return 0
   | ["btls"] => Driver.BtlsD.main; return 0
   | ["xpoll"] => Driver.XpollD.main; return 0
